@@ -155,6 +155,27 @@ func c16(c *Ctx) {
 	c.ErrStops("http/import-create-error", pi, p.PlainCalls("litefs.(*Store).CreateDBIfNotExists"), p.PlainCalls(im), 1, "a failed create ends the request", "")
 	c.ExpectAll("http/import-body", c.CallArgs(pi, p.PlainCalls(im), 2), pat("net/http.(*Request).WithContext(p2, @@).Body")+"|"+pat("p2.Body"), 1, "the image imported is the request body", "")
 	ge := "http.(*Server).handleGetExport"
+	{
+		// the handler itself reads nothing that belongs to the snapshot and announces no length
+		var bad []string
+		for _, in := range InstrsDeep(c.F(ge), func(in ssa.Instruction) bool { return callCommon(in) != nil }) {
+			n := p.CalleeName(callCommon(in))
+			switch {
+			case n == "litefs.(*DB).PageN" || n == "litefs.(*DB).Pos" || n == "litefs.(*DB).PageSize" || n == "litefs.(*DB).Mode":
+				bad = append(bad, n+" at "+c.where(in))
+			case n == "net/http.(Header).Set" || n == "net/http.(Header).Add":
+				if strings.Contains(c.argR(in, 1), "Content-Length") {
+					bad = append(bad, "Content-Length set at "+c.where(in))
+				}
+			}
+		}
+		d := "handleGetExport reads no database size/position of its own and announces no Content-Length: everything about the image comes from the one capture inside Export"
+		if len(bad) > 0 {
+			c.fail("http/export-no-size-outside-capture", "K5 who-may-call", d, "a size computed before Export took its locks belongs to an earlier position: net/http cuts the newer, larger image at the announced length and the client receives a 200 that is no position's image", strings.Join(bad, "; "), len(bad))
+		} else {
+			c.ok("http/export-no-size-outside-capture", "K5 who-may-call", d, 1)
+		}
+	}
 	c.NilGuardedUses("http/export-unknown-db", ge, p.PlainCalls("litefs.(*Store).DB"), 1, "export of an unknown database answers 404 before calling Export", "")
 	c.ExpectAll("http/export-dest", c.CallArgs(ge, p.PlainCalls(ex), 2), "p1", 1, "the image is written to the response", "")
 }
